@@ -17,12 +17,13 @@ func init() {
 			ID: "C32", Title: "The IS-IS LSDB follows the ISO 10589 update process", Level: "other",
 			Technique:   "guard extraction (R-GATE) and decision tables on the typed AST/go/cfg of the LSDB: what every database store, every flag operation, the aging step and the own sequence counter are control-dependent on",
 			DesignRef:   "DESIGN.md §4 C32",
-			Decided:     "(1) a received LSP replaces the stored one only when there is none or its sequence number is higher; equal and lower numbers never store; (2) the flag operations of the four cases of an LSP/SNP entry against the database (newer received, same, older received / entry newer, same, older, unknown) are the ISO 10589 §7.3.15–17 ones (table in the checker), for CSNP and PSNP entries alike, and the 'not described by the CSNP' rule applies only inside the CSNP's range; (3) aging removes an entry whose remaining lifetime is at most 1 and only decrements larger ones (no wrap below zero), and asks for a refresh of the own LSP below the refresh threshold; (4) the own sequence number increases with every originated LSP, skips 0, and is raised to a received copy's number before the next origination.",
+			Decided:     "(0) a newer copy of an LSP is installed as a fresh LSDB entry (built by the entry constructor): the send/acknowledge flags of the copy it replaces — or of a CSNP placeholder — on other circuits cannot survive into it; (1) a received LSP replaces the stored one only when there is none or its sequence number is higher; equal and lower numbers never store; (2) the flag operations of the four cases of an LSP/SNP entry against the database (newer received, same, older received / entry newer, same, older, unknown) are the ISO 10589 §7.3.15–17 ones (table in the checker), for CSNP and PSNP entries alike, and the 'not described by the CSNP' rule applies only inside the CSNP's range; (3) aging removes an entry whose remaining lifetime is at most 1 and only decrements larger ones (no wrap below zero), and asks for a refresh of the own LSP below the refresh threshold; (4) the own sequence number increases with every originated LSP, skips 0, and is raised to a received copy's number before the next origination.",
 			NotDecided:  "timing of the periodic routines, checksum handling, purging (zero-lifetime LSP propagation), pseudonode LSPs; that flooding eventually reaches every neighbor is a liveness property.",
 			TrustedBase: stdTrusted,
 		},
 		Run: runC32,
 		Controls: []Control{
+			{Name: "newer-lsp-replaced-in-place", File: "protocols/isis/server/lsdb.go", Old: "\tlsdbEntry := newLSDBEntry(lspdu)\n\n\tfor _, i := range l.srv.netIfaManager.getAllInterfacesExcept(ifa) {", New: "\tlsdbEntry, exists := l.lsps[lspdu.LSPID]\n\tif exists {\n\t\tlsdbEntry.lspdu = lspdu\n\t} else {\n\t\tlsdbEntry = newLSDBEntry(lspdu)\n\t}\n\n\tfor _, i := range l.srv.netIfaManager.getAllInterfacesExcept(ifa) {", Expect: "newer-copy-starts-from-clean-flags"},
 			{Name: "refactor-entry-cases-reordered", Silent: true, File: "protocols/isis/server/lsdb.go", Old: "\tif e.sameAsInLSPEntry(lspEntry) {\n\t\te.clearSRMFlag(from)\n\t\treturn\n\t}\n\n\tif e.newerInDatabase(lspEntry) {\n\t\te.clearSSNFlag(from)\n\t\te.setSRM(from)\n\t\treturn\n\t}\n", New: "\tif e.newerInDatabase(lspEntry) {\n\t\te.setSRM(from)\n\t\te.clearSSNFlag(from)\n\t\treturn\n\t}\n\n\tif e.sameAsInLSPEntry(lspEntry) {\n\t\te.clearSRMFlag(from)\n\t\treturn\n\t}\n"},
 			{Name: "refactor-aging-with-else", Silent: true, File: "protocols/isis/server/lsdb.go", Old: "\t\tif lspdbEntry.lspdu.RemainingLifetime <= 1 {\n\t\t\tdelete(l.lsps, lspid)\n\t\t\tcontinue\n\t\t}\n\n\t\tlspdbEntry.lspdu.RemainingLifetime--\n", New: "\t\tif lspdbEntry.lspdu.RemainingLifetime <= 1 {\n\t\t\tdelete(l.lsps, lspid)\n\t\t} else {\n\t\t\tlspdbEntry.lspdu.RemainingLifetime--\n\t\t}\n"},
 			{Name: "store-on-equal-sequence", File: "protocols/isis/server/lsdb.go", Old: "\tif !exists || lspdu.SequenceNumber > existingLSDBEntry.lspdu.SequenceNumber {", New: "\tif !exists || lspdu.SequenceNumber >= existingLSDBEntry.lspdu.SequenceNumber {", Expect: "highest-sequence-kept"},
@@ -36,6 +37,7 @@ func init() {
 }
 
 func runC32(c *core.Ctx) {
+	newerCopyStartsFromCleanFlags(c)
 	p := c.P
 	lspsF := p.Field(isisSrv, "lsdb", "lsps")
 	seqF := p.Field("protocols/isis/packet", "LSPDU", "SequenceNumber")
@@ -397,4 +399,62 @@ func newerGuard(f *core.Fn, call *ast.CallExpr, seqF *types.Var) bool {
 		}
 	}
 	return false
+}
+
+// newerCopyStartsFromCleanFlags: when a newer copy of an LSP arrives, the flags of the older copy are void: ISO 10589
+// 7.3.15.1 e) sets SRM on all other circuits, clears it and sets SSN on the receiving one, and clears SSN on all others.
+// bio-rd gets the clearing by installing a FRESH entry.  Rule: in processNewerLSPDU the entry on which the flags are set
+// and which is stored in the LSDB is built by an entry constructor (newLSDBEntry) on every path — never an entry read
+// out of the LSDB.
+func newerCopyStartsFromCleanFlags(c *core.Ctx) {
+	const rule = "newer-copy-starts-from-clean-flags"
+	p := c.P
+	c.Floor(rule, 1)
+	f := c.MustFunc(isisSrv + ".(*lsdb).processNewerLSPDU")
+	ctor := p.Func(isisSrv + ".newLSDBEntry")
+	lspsF := p.Field(isisSrv, "lsdb", "lsps")
+	if f == nil || ctor == nil || lspsF == nil {
+		return
+	}
+	c.Analysed(f)
+	fresh := func(o types.Object) (bool, string) {
+		defs := core.DefsOf(f, o)
+		if len(defs) == 0 {
+			return false, "no definition found"
+		}
+		for _, d := range defs {
+			call, ok := core.Unparen(d).(*ast.CallExpr)
+			if !ok || core.Callee(f.Pkg, call) != ctor.Obj {
+				return false, "defined by `" + core.ExprString(d) + "`"
+			}
+		}
+		return true, ""
+	}
+	n := 0
+	ast.Inspect(f.Decl.Body, func(nd ast.Node) bool {
+		// the entry stored in the LSDB
+		if as, ok := nd.(*ast.AssignStmt); ok && len(as.Lhs) == 1 && len(as.Rhs) == 1 {
+			if ie, isIdx := core.Unparen(as.Lhs[0]).(*ast.IndexExpr); isIdx && core.FieldOf(f.Pkg, ie.X) == lspsF {
+				n++
+				o := core.ObjOf(f.Pkg, as.Rhs[0])
+				ok, why := false, "the stored value is not a local entry"
+				if o != nil {
+					ok, why = fresh(o)
+				}
+				c.Check(ok, rule, f.Name()+" stores a freshly built entry", as.Pos(), "the entry stored for the newer copy is not built by newLSDBEntry on every path ("+why+"): an existing entry is reused, so the acknowledge/send flags of the older copy on other circuits survive — a PSNP then acknowledges on a circuit a sequence number that circuit never sent")
+			}
+		}
+		// the entry the flags are set on
+		if call, ok := nd.(*ast.CallExpr); ok {
+			if sel, isSel := call.Fun.(*ast.SelectorExpr); isSel && (sel.Sel.Name == "setSRM" || sel.Sel.Name == "setSSN") {
+				if o := core.ObjOf(f.Pkg, sel.X); o != nil {
+					n++
+					ok, why := fresh(o)
+					c.Check(ok, rule, f.Name()+" sets "+sel.Sel.Name[3:]+" on a freshly built entry", call.Pos(), "flags are set on an entry that is not built by newLSDBEntry on every path ("+why+")")
+				}
+			}
+		}
+		return true
+	})
+	c.Check(n >= 2, rule, f.Name()+" stores an entry and sets its flags", f.Decl.Pos(), "the store into the LSDB / the flag updates were not found")
 }
